@@ -13,12 +13,29 @@ def install(w):
               "len(self._input_type_stack) == old(len(self._input_type_stack)) + 1",
               "forall(j, 0, old(len(self._default_value_stack)),"
               " same(self._default_value_stack[j], old(self._default_value_stack[j])))"]
-    w.contract(f"{TI}.TypeInfo.get_input_type", returns="opt:ty", modifies=[],
-               ensures=["implies(len(self._input_type_stack) == 0, result is None)"], props={"C13"})
+    # TypeInfo.get_input_type (top of the stack or None) has no contract of its own: it is inlined
+    # into its callers, so that they see *which* type it returns
     w.contract(f"{TI}.TypeInfo.enter_list_value", params={"_node": "ref:ValueNode"},
                # list positions never have a location default: the marker is Undefined (not None),
                # which is what allowed_variable_usage tests
                ensures=STACKS + ["is_undefined(self._default_value_stack[len(self._default_value_stack) - 1])"],
+               raises=[], modifies=[], props={"C13"})
+    # an object field inside an input value: the position's type is the type of that field of the
+    # input object type *under every wrapper* of the enclosing position (a bare object literal may
+    # stand in a list position, and the position may be non-null) - this is what the variable rules
+    # compare a variable inside the literal against
+    w.alias("ObjectFieldNode", "graphql.language.ast.ObjectFieldNode")
+    w.shape("ObjectFieldNode", name="ref:NameNode", value="ref:ValueNode", kind="str", loc="opaque")
+    TOP = "self._input_type_stack[len(self._input_type_stack) - 1]"
+    OLD_TOP = "old(self._input_type_stack[len(self._input_type_stack) - 1])"
+    w.contract(f"{TI}.TypeInfo.enter_object_field", params={"node": "ref:ObjectFieldNode"},
+               requires=["len(self._input_type_stack) > 0"],
+               ensures=STACKS + [
+                   f"implies({OLD_TOP} is not None and kind_is(NamedOf({OLD_TOP}), 'INPUT_OBJECT')"
+                   f" and omap_has(NamedOf({OLD_TOP}).fields, node.name.value)"
+                   f" and InputTy(omap_at(NamedOf({OLD_TOP}).fields, node.name.value).type),"
+                   f" opt_is({TOP}, omap_at(NamedOf({OLD_TOP}).fields, node.name.value).type))",
+                   f"implies({OLD_TOP} is None or not kind_is(NamedOf({OLD_TOP}), 'INPUT_OBJECT'), {TOP} is None)"],
                raises=[], modifies=[], props={"C13"})
 
 
